@@ -634,6 +634,8 @@ def _call(case, nodes, aux):
         return "reader", export.tree_to_mermaid(t, **o)
     if fn == "tree_to_dot":
         kw = dict(o)
+        if kw.pop("as_list", False):
+            t = [t]
         if kw.pop("callable_attr", False):
             kw["node_attr"] = lambda nd: {"shape": "box"} if nd.is_leaf else {}
         g = export.tree_to_dot(t, **kw)
@@ -691,8 +693,7 @@ def _call(case, nodes, aux):
     if fn == "copy_nodes":
         # nodes = the subtree that is copied; aux = [root of the whole tree]
         modify.copy_nodes(aux[0], **o)
-        hit = [x for x in search.find_full_path(aux[0], o["to_paths"][0]) and [search.find_full_path(aux[0], o["to_paths"][0])] or []]
-        return "tree_own", (hit[0] if hit else None)
+        return "tree_own", search.find_full_path(aux[0], o["to_paths"][0])
     if fn in DAG_FNS:
         from bigtree.dag import export as dexport
         if fn == "dag_iterator":
@@ -798,6 +799,44 @@ def _sig_links(sig):
     return [sig["w"], [[e["p"], e["k"], e["pv"]] for e in sig["e"]]]
 
 
+def _dres_links(d):
+    return [[i, e["p"], e["k"], e["pv"]] for i, e in d]
+
+
+def _dres_attrs(d):
+    return [[e["nm"], [a[:2] for a in e["a"]]] for i, e in d]
+
+
+def _dag_equal_part(before, start, res, ret):
+    es = before["e"]
+    n = len(es)
+    byid = {}
+    for i, e in res:
+        byid.setdefault(i, e)
+    names = {}
+    for k, e in enumerate(es):
+        names.setdefault(e["nm"], k)
+
+    def m(rid):
+        if rid is None:
+            return None
+        if rid < n:
+            return rid
+        return names.get(byid[rid]["nm"]) if rid in byid else None
+    img = []
+    for i, e in res:
+        k = m(i)
+        if k is None:
+            return False
+        img.append(k)
+        ie = es[k]
+        if e["nm"] != ie["nm"] or [a[:2] for a in e["a"]] != [a[:2] for a in ie["a"]]:
+            return False
+        if [m(q) for q in e["p"]] != ie["p"] or [m(c) for c in e["k"]] != ie["k"]:
+            return False
+    return len(set(img)) == len(img) and m(ret) == start and any(i == ret for i, _ in res)
+
+
 def _sig_attrs(sig):
     return [[e["nm"], [a[:2] for a in e["a"]]] for e in sig["e"]]
 
@@ -869,6 +908,8 @@ def equal_part_mode(case):
     fn = case["fn"]
     if fn in ("node_copy", "deepcopy", "clone_tree"):
         return 0, "exact"
+    if fn == "copy_nodes":
+        return 0, ("part" if case["opts"].get("delete_children") else "exact")
     if fn == "shallow_copy":
         return case["start"], "exact"
     if fn == "get_subtree":
@@ -895,7 +936,18 @@ def clauses(case, obs):
             cl["equal_part"] = _embeds(_strip(res["t"]), exp, mode[1] == "exact")
             if not cl["equal_part"] and case["fn"] == "clone_tree":
                 cl["equal_modulo_slots"] = _embeds(_strip(res["t"]), _compact(exp), True)
-    if obs["kind"] in ("tree", "tree_inplace", "data"):
+    dres = obs.get("dres")
+    if dres is not None:
+        ids = [dres[1]]
+        for i, e in dres[0]:
+            ids += [i] + e["p"] + [k for k in e["k"] if k is not None]
+        cl["fresh_nodes"] = all(i >= n for i in ids)
+        cl["fresh_lists"] = not (set(obs["in_lists"]) & set(obs["out_lists"]))
+        cl["equal_part"] = _dag_equal_part(b, case["start"], dres[0], dres[1])
+    if obs.get("dres12") is not None:
+        cl["indep_result_links"] = _dres_links(obs["dres12"][0]) == _dres_links(obs["dres12"][1])
+        cl["indep_result_attrs"] = _dres_attrs(obs["dres12"][0]) == _dres_attrs(obs["dres12"][1])
+    if obs["kind"] in ("tree", "tree_inplace", "tree_own", "data", "dag", "dag_one"):
         cl["fresh_vals"] = not (set(obs["in_vals"]) & set(obs["out_vals"]))
     if obs["after_mr"] is not None:
         cl["indep_input_links"] = _sig_links(b) == _sig_links(obs["after_mr"])
@@ -944,7 +996,7 @@ def explained_by(case, obs):
     failing = {k for k, v in cl.items() if v is False and k != "equal_modulo_slots"}
     out = {}
     fn = case["fn"]
-    if fn == "shallow_copy":
+    if fn in ("shallow_copy", "dag_shallow_copy"):
         out["K4-C07"] = failing & K4_CLAUSES
     if fn == "clone_tree":
         if set(obs["in_vals"]) & set(obs["out_vals"]):
@@ -983,8 +1035,12 @@ def _cattrs(a):
 
 
 def _centry(e):
-    pv = "None" if e["pv"] is None else f"(Some ({copt(e['pv'][0], str)}, {_cids(e['pv'][1])}))"
-    return f"E {copt(e['p'], str)} {_cids(e['k'])} {cstr(e['nm'])} {_cattrs(e['a'])} {pv}"
+    pv = "None" if e["pv"] is None else f"(Some ({_cnl(e['pv'][0])}, {_cids(e['pv'][1])}))"
+    return f"E {_cnl(e['p'])} {_cids(e['k'])} {cstr(e['nm'])} {_cattrs(e['a'])} {pv}"
+
+
+def _cdres(d):
+    return clist(f"({int(i)}, {_centry(e)})" for i, e in d)
 
 
 def _csig(s):
@@ -1005,10 +1061,18 @@ def _cfn(case, obs):
     st = case["start"]
     if obs["code"] != 0:
         return "FRaised"
-    if fn in RENDER:
+    if fn in RENDER or fn in ("dag_to_list", "dag_to_dot"):
         return "FReader"
-    if fn in ITERS or fn in SEARCH:
+    if fn in ITERS or fn in SEARCH or fn in DAG_READ:
         return "FNodes"
+    if fn in DAG_EXPORT:
+        return f"FDagExport {st}"
+    if fn in ("dag_copy", "dag_deepcopy"):
+        return f"FDagCopy {st}"
+    if fn == "dag_shallow_copy":
+        return f"FDagShallow {st}"
+    if fn == "copy_nodes":
+        return f"FCopyNodes {cbool(not case['opts'].get('delete_children'))}"
     if fn in EXPORT:
         return f"FExport {st}"
     if fn in ("node_copy", "deepcopy"):
@@ -1031,7 +1095,7 @@ def emit(prop, case, obs):
     res = obs["result"]
     cres = "None" if res is None else f"(Some ({_crt(res['t'])}, {res['ret']}, {_cnl(res['up'])}))"
     parts = [
-        "1" if case["cls"] == "BinaryNode" else "0",
+        {"Node": "0", "BinaryNode": "1", "DAGNode": "2"}[case["cls"]],
         _cfn(case, obs),
         str(int(obs["n"])),
         _csig(obs["before"]), _csig(obs["after"]),
@@ -1041,6 +1105,8 @@ def emit(prop, case, obs):
         "None" if obs["after_mr"] is None else f"Some ({_csig(obs['after_mr'])})",
         "None" if obs["res1"] is None else f"Some ({_crt(obs['res1'])}, {_crt(obs['res2'])})",
         "None" if obs["data"] is None else f"Some ({obs['data'][0]}, {obs['data'][1]})",
+        "None" if obs.get("dres") is None else f"Some ({_cdres(obs['dres'][0])}, {int(obs['dres'][1])})",
+        "None" if obs.get("dres12") is None else f"Some ({_cdres(obs['dres12'][0])}, {_cdres(obs['dres12'][1])})",
     ]
     return "EC " + " ".join(f"({p})" for p in parts)
 
@@ -1165,8 +1231,94 @@ def _ints(rng):
     return [rng.randrange(1000) for _ in range(4)]
 
 
+def gen_dag(rng, nmax=8):
+    n = rng.randint(3, nmax)
+    pool = NAME_POOLS["distinct"]
+    off = rng.randrange(len(pool))
+    spec = []
+    for i in range(n):
+        k = 0 if i == 0 else rng.choice([0, 1, 1, 2, 2, 3])
+        pars = sorted(rng.sample(range(i), min(i, k)))
+        if rng.random() < 0.5:
+            rng.shuffle(pars)
+        attrs = {}
+        if rng.random() < 0.6:
+            for key in rng.sample(["age", "tags", "w"], rng.randint(1, 2)):
+                attrs[key] = rng.choice([1, 2, 90, "x", None, 2.5]) if (key != "tags" or rng.random() < 0.4) \
+                    else rng.choice([[1, 2], ["p"], {"k": [1]}, [[1], 2]])
+        spec.append([pars, pool[(off + i) % len(pool)] + (str(i) if i >= len(pool) else ""), attrs, 0])
+    return spec
+
+
+def _dag_desc(spec, i):
+    out = []
+    for j in range(len(spec)):
+        if j != i and (i in spec[j][0] or any(q in out for q in spec[j][0])):
+            out.append(j)
+    return out
+
+
+def gen_dag_case(rng, fn):
+    spec = gen_dag(rng)
+    n = len(spec)
+    start = 0 if rng.random() < 0.3 else rng.randrange(n)
+    o = {}
+    case = {"cls": "DAGNode", "fn": fn, "tree": spec, "start": start, "opts": o,
+            "mut_res": _ints(rng), "mut_in": _ints(rng), "stratum": "dag"}
+    if fn == "dag_go_to":
+        d = _dag_desc(spec, start)
+        case["target"] = rng.choice(d) if d and rng.random() < 0.85 else rng.randrange(n)
+    elif fn == "dag_to_dict":
+        if rng.random() < 0.6:
+            o["all_attrs"] = True
+        else:
+            o["attr_dict"] = {k: k.upper() for k in rng.sample(["age", "tags", "w"], 2)}
+        if rng.random() < 0.3:
+            o["parent_key"] = "par"
+    elif fn == "dag_to_dataframe":
+        if rng.random() < 0.5:
+            o["all_attrs"] = True
+        else:
+            o["attr_dict"] = {k: k.upper() for k in rng.sample(["age", "w"], rng.randint(1, 2))}
+    elif fn == "dag_to_dot":
+        o["rankdir"] = rng.choice(["TB", "LR"])
+        if rng.random() < 0.3:
+            o["node_colour"] = "gold"
+    return case
+
+
+def gen_copy_nodes_case(rng):
+    for _ in range(50):
+        spec, shape, pool = gen_tree(rng, "Node", nmax=9)
+        n = len(spec)
+        if n < 3:
+            continue
+        sep = rng.choice(SEPS) if rng.random() < 0.3 else "/"
+        paths = _paths(spec, sep)
+        j = rng.randrange(1, n)
+        sub = _subtree(spec, j)
+        cands = [q for q in range(n) if q not in sub and q != spec[j][0]]
+        if not cands:
+            continue
+        q = rng.choice(cands)
+        o = {"from_paths": [paths[j]], "to_paths": [paths[q] + sep + spec[j][1]], "sep": sep}
+        if any(s2[0] == q and s2[1] == spec[j][1] for s2 in spec):
+            o["overriding"] = True
+        if rng.random() < 0.25:
+            o["delete_children"] = True
+        if rng.random() < 0.2:
+            o["with_full_path"] = True
+        return {"cls": "Node", "fn": "copy_nodes", "tree": spec, "sep": sep, "start": 0, "sub": sub, "opts": o,
+                "mut_res": _ints(rng), "mut_in": _ints(rng), "stratum": f"{shape}/{pool}"}
+    raise RuntimeError("no copy_nodes case")
+
+
 def gen_case(rng, fn=None, cls=None, nmax=9):
     fn = fn or rng.choice(ALL_FNS)
+    if fn in DAG_FNS:
+        return gen_dag_case(rng, fn)
+    if fn == "copy_nodes":
+        return gen_copy_nodes_case(rng)
     if fn in NODE_ONLY:
         cls = "Node"
     elif fn in BINARY_ONLY:
@@ -1195,6 +1347,10 @@ def gen_case(rng, fn=None, cls=None, nmax=9):
                 o["attr_list"] = rng.sample(["age", "tags", "meta", "w"], 2)
                 o["attr_omit_null"] = rng.random() < 0.5
             o["style"] = rng.choice(["const", "ansi", "ascii", "rounded", "double", "const_bold"])
+            if rng.random() < 0.2:
+                o["style"] = ["|  ", "+- ", "`- "]
+            if rng.random() < 0.2:
+                o["attr_bracket"] = ["(", ")"]
         elif fn == "yield_tree":
             o["style"] = rng.choice(["const", "ansi", "ascii", "rounded", "double"])
         else:
@@ -1214,7 +1370,15 @@ def gen_case(rng, fn=None, cls=None, nmax=9):
             o["edge_label"] = "w"
         if md:
             o["max_depth"] = md
+        if rng.random() < 0.4 and _unambiguous(paths, members, target):
+            o["node_name_or_path"] = paths[target]
+        if rng.random() < 0.2:
+            o["node_shape"] = rng.choice(["rhombus", "circle"])
     elif fn == "tree_to_dot":
+        if rng.random() < 0.2:
+            o["as_list"] = True
+        if rng.random() < 0.2:
+            o["edge_colour"] = "blue"
         o["directed"] = rng.random() < 0.7
         if rng.random() < 0.3:
             o["node_colour"] = "gold"
@@ -1409,6 +1573,12 @@ def corpus(prop):
     out.append(("diff-second-sep", dict(base, cls="Node", fn="get_tree_diff_second", tree=t5, start=0, sep="/",
                                         tree2=[[None, "a", {}, 0], [0, "c", {}, 0], [0, "x", {}, 0]], sep2="-",
                                         opts={"only_diff": True})))
+    dg = [[[], "a", {"tags": [1]}, 0], [[], "b", {}, 0], [[0, 1], "c", {"age": 3}, 0], [[2, 0], "d", {}, 0]]
+    out.append(("K4-shallow-dag", dict(base, cls="DAGNode", fn="dag_shallow_copy", tree=dg, start=2)))
+    out.append(("dag-copy-inner", dict(base, cls="DAGNode", fn="dag_copy", tree=dg, start=2)))
+    out.append(("dag-to-dict", dict(base, cls="DAGNode", fn="dag_to_dict", tree=dg, start=0, opts={"all_attrs": True})))
+    out.append(("copy-nodes", dict(base, cls="Node", fn="copy_nodes", tree=t5, start=0, sub=[1, 2, 3, 4],
+                                   opts={"from_paths": ["/a/c"], "to_paths": ["/a/b/c"], "sep": "/"})))
     return out
 
 
@@ -1416,7 +1586,8 @@ def generate(prop, rng, tier):
     count = {"quick": 1200, "thorough": 16000, "search": 3000}[tier]
     fns = list(ALL_FNS)
     # tree-returning and copying functions get twice the share of the pure readers
-    weights = [2.5 if f in TREEFN else 1.5 if f in EXPORT else 1.0 for f in fns]
+    weights = [2.5 if f in TREEFN or f in TREEFN2 or f in DAG_COPY else 1.5 if f in EXPORT or f in DAG_EXPORT else 1.0
+               for f in fns]
     for i in range(count):
         fn = fns[i % len(fns)] if i < 3 * len(fns) else rng.choices(fns, weights)[0]
         c = gen_case(rng, fn=fn)
@@ -1442,7 +1613,9 @@ def _drop_leaf(case, key, j):
 def shrink_candidates(prop, case):
     spec = case["tree"]
     fixed = {case.get("start", 0), case.get("found", 0)} | set(case.get("targets", []))
-    if not case.get("tree2") or case["fn"].startswith("get_tree_diff"):
+    if case["cls"] == "DAGNode" or case["fn"] == "copy_nodes":
+        pass
+    elif not case.get("tree2") or case["fn"].startswith("get_tree_diff"):
         for j in range(len(spec) - 1, 0, -1):
             if j in fixed or case["fn"] in ("copy_nodes_from_tree_to_tree", "copy_and_replace_nodes_from_tree_to_tree"):
                 continue
@@ -1489,11 +1662,13 @@ def sample(prop, case, obs):
 
 
 def rule(prop):
-    return ("41 read-only / copying API calls (renderers, iterators, search, exporters, copy/deepcopy/copy.copy, clone_tree, "
-            "get_subtree, prune_tree, get_tree_diff on either argument, copy_*_from_tree_to_tree on the source) x random option "
-            "combinations x random start node on random Node/BinaryNode trees (3-9 nodes, shapes wide/deep/mixed/path/star, "
-            "name pools distinct/repeated/affix/special, scalar and mutable list/dict attribute values); signature before/after, "
-            "identity sets, result tree, then mutation batches on each side; non-trivial = >= 3 nodes and the call returned "
+    return ("57 read-only / copying API calls (renderers incl. node_name_or_path/max_depth/style/attr options, iterators, search, "
+            "exporters, copy/deepcopy/copy.copy, clone_tree, get_subtree, prune_tree, get_tree_diff on either argument, "
+            "copy_*_from_tree_to_tree on the source, copy_nodes on the copied subtree; DAGNode: copy/deepcopy/copy.copy, dag_iterator, "
+            "dag_to_list/dict/dataframe/dot, ancestors/descendants/siblings/go_to) x random option combinations x random start node "
+            "on random Node/BinaryNode trees (3-9 nodes, shapes wide/deep/mixed/path/star, name pools distinct/repeated/affix/special) "
+            "and random DAGs (3-8 nodes, up to 3 parents), scalar and mutable list/dict attribute values; signature before/after, "
+            "identity sets, result tree / DAG, then mutation batches on each side; non-trivial = >= 3 nodes and the call returned "
             "normally; distinct by canonical JSON hash")
 
 
@@ -1528,6 +1703,13 @@ def partial_clauses(prop):
         "so it is recorded per sample (sep_overwritten) and not raised",
         "result_equal_part for prune_tree / get_subtree(max_depth) / get_tree_diff: C07 checks 'is an order-preserving part of "
         "the input' (resp. only freshness for the diff tree); which part exactly is C14 / C15",
+        "copy_nodes at run time: plain / overriding / delete_children / with_full_path only (merge_children, merge_leaves are "
+        "covered by the skeleton theorem C07_copy_nodes_from_tree_to_tree_input_unchanged and by C08's correspondence)",
+        "DAGNode: the DAG skeleton carries links and names only (attribute values of DAG copies are checked at run time, not "
+        "modelled); DNew (allocation) is not an operation of C07_dag_independence; DAGNode.go_to stores its work list in the "
+        "private field _DAGNode__path of the start node (not a public attribute, not raised)",
+        "not exercised: tree_to_pillow / tree_to_pillow_graph (need a font download), plot / reingold_tilford (write x, y into "
+        "the input by design, C19), the workflows",
     ]
 
 
